@@ -1,5 +1,7 @@
 """C15 DDDMP: writer/reader tables"""
+import ecount
 import ebin
+import ehdr
 import edddmp
 import etaint
 import elin
@@ -60,4 +62,24 @@ def run(ctx):
     ebin.check_ascii_writer(ctx, F)
     ctx.explain("E-DDDMP.reader: header length validations use `!=` (equal lengths pass), roots are complemented exactly for negative ids, the missing-`.end` error sits on the `!reads_expected` edge.")
     ebin.check_reader_structure(ctx, F)
+    ctx.explain("E-DDDMP.header: everything `DumpHeader::load` does after its reading loop is interpreted on model headers: 12 "
+                "well-formed ones (unnamed, each name list and their combinations, a constant function, full support, the last "
+                "node as a plain / complemented root) are accepted with support_var_order = support variables by level and the "
+                "names by variable number; 22 malformed ones (.ids not strictly ascending or not below .nvars, .permids out of "
+                "range or duplicate, every length mismatch, contradicting name lists, root id 0 or beyond .nnodes) yield Err, "
+                "never a panic.")
+    ctx.explain("E-DDDMP.noderec: the ASCII reader rejects a node line exactly for children.len() != ARITY, recognises terminals by "
+                "children.contains(&0), and raises the child-id error exactly for child >= node_id before nodes[child - 1] is read; "
+                "the binary reader asserts ARITY == 2 and its idx() (interpreted) rejects id 0, ids >= node_id and offsets beyond node_id.")
+    ctx.explain("E-DDDMP.strictmode: every io::Error the exporter creates for a name it sanitises lies on the true edge of a test of "
+                "ExportSettings::strict and is unreachable from that test's false edge (the default export sanitises silently).")
+    ns = edddmp.check_strict_mode(ctx, F)
+    ctx.floor("E-DDDMP.strictmode", "error creations in the exporter", ns, 4)
+    nr = ebin.check_node_records(ctx, F)
+    ctx.floor("E-DDDMP.noderec", "node-record checks", nr, 25)
+    nh = ehdr.run(ctx, F)
+    ctx.floor("E-DDDMP.header", "model headers interpreted", nh, 34)
+    ctx.explain("E-COUNT.underflow: no unsigned local that starts at the literal 0 is only ever decremented (it would underflow at its "
+                "first update); detector checked against a built-in positive example on every run.")
+    ecount.run(ctx, F, ('oxidd_dump',))
     ctx.not_decided = "round-trip equality of diagrams, totality on malformed input (value reasoning about indices and counts)"
